@@ -27,6 +27,13 @@ def direct(ctx, strings):
     matched = [s for s in sample if spec11.spec_tag(s) != spec11.STR]
     rest = [s for s in sample if spec11.spec_tag(s) == spec11.STR]
     pick = matched + ctx.rng.sample(rest, min(len(rest), ctx.n(6000, 60000)))
+    # timestamps with fractions of every length (the microsecond field must be the fraction truncated to six digits, exactly)
+    rng = ctx.rng
+    for _ in range(ctx.n(4000, 120000)):
+        frac = ''.join(rng.choice('0123456789') for _ in range(rng.choice([1, 2, 3, 4, 5, 6, 6, 6, 6, 7, 9])))
+        if rng.random() < 0.5: frac = '000' + '%03d' % rng.randrange(1000)
+        pick.append('%04d-%02d-%02d%s%02d:%02d:%02d.%s%s' % (rng.randint(1, 9999), rng.randint(1, 12), rng.randint(1, 28), rng.choice(['T', 't', ' ']), rng.randint(0, 23), rng.randint(0, 59), rng.randint(0, 59), frac,
+                                                          rng.choice(['', '', 'Z', ' Z', '+01', '-5', ' +05:30', '-11:45'])))
     res = vlib.run_impl('c08direct', pick)
     for s, r in zip(pick, res):
         ctx.count('direct_' + spec11.spec_tag(s).rsplit(':', 1)[1])
